@@ -32,10 +32,18 @@ def main():
             "replay_cmd_template": f"./check {pid} --replay {{path}}",
             "engine": "fv",
             "level_claimed": {"category": "exploration",
-                              "text": getattr(mod, "LEVEL_TEXT", mod.RULE),
+                              "text": getattr(mod, "LEVEL_TEXT", None) or (
+                                  "Runtime monitoring of the real code on generated workloads (exploration, no proof): "
+                                  + getattr(mod, "TECHNIQUE", "contracts and reference oracles on executions of the real code")
+                                  + ". Workload: " + mod.RULE + ". The claim is only that the property held on the executions of "
+                                  "this run; how many were decisive, how many distinct structural signatures, how often every "
+                                  "monitor was evaluated and which anchored lines were reached is measured and written to the "
+                                  "evidence file. A run with too few decisive cases or an unreached monitor exits 2 (inconclusive)."),
                               "design_ref": f"DESIGN.md section 5, {pid}"},
-            "level_note": getattr(mod, "LEVEL_NOTE", "; ".join(getattr(mod, "ASSUMPTIONS", [])) or
-                                  "oracle and generators of /verif/fv are trusted"),
+            "level_note": getattr(mod, "LEVEL_NOTE", None) or (
+                "Trusted base: the generators and reference oracles under /verif/fv (numpy/scipy), icontract, CPython. "
+                + "; ".join(getattr(mod, "ASSUMPTIONS", [])) + ". Known findings of this property (KNOWN_FINDINGS.json) are "
+                "reported as KNOWN-FINDING lines and classified by mechanism predicates on the witness."),
             "technique": getattr(mod, "TECHNIQUE", "runtime monitoring: contracts/oracles on executions of the real code"),
         })
     try:
